@@ -141,6 +141,21 @@ def mixed(run, n):
                 dt = rng.choice(list(names))
             cls = "UAVariable" if rng.random() < 0.85 else rng.choice(["UAVariableType", "UAObject"])
             rows.append(("n%d" % j, obj if rng.random() < 0.9 else None, dt if rng.random() < 0.97 else None, cls))
+        if rng.random() < 0.3:
+            # only never-rejected rows (enumeration / list values under any built-in DataType) next to correctly typed ones:
+            # the write must be accepted (regression class of the fixed defect D-C16c)
+            rows = []
+            for j in range(rng.randint(1, 4)):
+                d, obj = rng.choice(vals)
+                cname = type(obj).__name__
+                good = "XmlElement" if cname == "UAXMLElement" else cname[2:]
+                if cname in ("UAEnumeration", "UAListOf"):
+                    rows.append(("e%d" % j, obj, rng.choice(list(names)), "UAVariable"))
+                elif good in inv:
+                    rows.append(("g%d" % j, obj, inv[good], "UAVariable"))
+            special = [v for v in vals if type(v[1]).__name__ in ("UAEnumeration", "UAListOf")]
+            if special:
+                rows.append(("s", rng.choice(special)[1], rng.choice(list(names)), "UAVariable"))
         run.case({"mixed": i, "rows": len(rows)}, nontrivial=bool(rows), tag="mixed")
         if not frame_case(run, rows, names) or run.full():
             return
